@@ -1,7 +1,7 @@
 """C19 - IBD segments are exactly the maximal shared-path intervals of each sample pair (structural clauses)."""
 from __future__ import annotations
 
-from . import scopes, lib_ibd, lib_guards, lib_gate, lib_module, lib_py, lib_err, lib_mem, lib_kind
+from . import scopes, lib_ibd, lib_guards, lib_gate, lib_module, lib_py, lib_err, lib_mem, lib_kind, lib_kind4
 
 LEVEL = "other"
 EXPLANATION = ("Exact sample / partition id guards and the integrity gate on the ibd_segments paths, counter pairing so the "
@@ -32,6 +32,7 @@ def run(ctx):
     lib_py.kw_forward(ctx, py, mods=("trees", "tables"), only=ps)
     lib_py.unused_params(ctx, py, mods=("trees", "tables"), only=ps)
     lib_kind.py_lints(ctx, py, mods=("trees", "tables"), only=ps)
+    lib_kind4.mapping_mixin(ctx, py)
     lib_py.ll_positional(ctx, py, P, only=ps)
     # accessors that need stored pairs / segments raise the dedicated errors
     tu = P.tus["tables"]
